@@ -44,6 +44,36 @@ pub fn run(tier: &str, seed: u64, report: &mut Report) {
                 // crashed runs may leave zero-length files: resync with the decoded state
                 live = state_map(&rec.state_after).into_iter().filter(|(k, v)| k.starts_with("d/") && v.starts_with("block:")).map(|(k, _)| k).collect();
             }
+            // (c') every file that is unchanged with respect to the basis listing (the stitched listing of
+            //      the newest band before the run, by the format's rule) and whose blocks are all present
+            //      must be reused, not stored again
+            if rec.kind == "backup" {
+                let real = rec.real.as_ref().unwrap();
+                if real.result.starts_with("result ok") {
+                    if let Some(nb) = all_bands(&rec.state_before).into_iter().max() {
+                        let st_before = state_map(&rec.state_before);
+                        let basis: BTreeMap<String, DecEntry> = expected_listing(&rec.state_before, nb).into_iter().map(|e| (e.apath.clone(), e)).collect();
+                        let mut expect_unmodified = 0usize;
+                        for o in rec.src_obs.iter().filter(|o| o.kind == 'f') {
+                            if let Some(b) = basis.get(&o.apath) {
+                                let f: Vec<&str> = b.raw.split(',').collect();
+                                let (bsec, bnanos): (i64, i64) = (f[2].parse().unwrap_or(0), f[3].parse().unwrap_or(0));
+                                let same_time = bsec * 1_000_000_000 + bnanos == o.mtime_ns;
+                                let size: usize = b.addrs.iter().map(|a| a.2).sum();
+                                let blocks_present = b.addrs.iter().all(|(h, _, _)| st_before.get(&format!("d/{}/{}", &h[..3], h)).map(|v| v.starts_with("block:")).unwrap_or(false));
+                                if b.kind == 'f' && same_time && size == o.content.len() && blocks_present {
+                                    expect_unmodified += 1;
+                                }
+                            }
+                        }
+                        let unmodified: usize = real.result.split(' ').find_map(|t| t.strip_prefix("unmodified_files=")).and_then(|v| v.parse().ok()).unwrap_or(0);
+                        report.hit_n("files-expected-reused", expect_unmodified as u64);
+                        if unmodified != expect_unmodified {
+                            report.oracle_fail("dedup:unchanged-file-not-reused", case.clone(), "the number of files reused from the basis differs from the number of files unchanged with respect to the basis listing", json!({"expected_unmodified": expect_unmodified, "reported_unmodified": unmodified}));
+                        }
+                    }
+                }
+            }
             // (a) unchanged tree since the previous COMPLETED version (and that version is the newest band): no block writes, identical addresses
             if rec.kind == "backup" {
                 let real = rec.real.as_ref().unwrap();
